@@ -46,7 +46,7 @@ func runC12(c *Ctx, r *Report, tier string) {
 	// ---- KINDS
 	kindSet := func(fn *ssa.Function, subj string) map[int64]bool {
 		out := map[int64]bool{}
-		for _, b := range fn.Blocks {
+		for _, b := range c.blocks(fn) {
 			if iff, ok := b.Instrs[len(b.Instrs)-1].(*ssa.If); ok {
 				if s, ks, isK := c.kindFact(iff.Cond, true); isK && s == subj {
 					for _, k := range ks {
@@ -186,7 +186,7 @@ func runC12(c *Ctx, r *Report, tier string) {
 	won := c.fname(wo)
 	// the value written is phi{raw | Quote(raw)}; the raw edge requires ¬forceQuote ∧ (type != String ∨ isPrint)
 	nRaw := 0
-	for _, b := range wo.Blocks {
+	for _, b := range c.blocks(wo) {
 		for _, in := range b.Instrs {
 			p, ok := in.(*ssa.Phi)
 			if !ok || c.term(p) != "phi{P4 | call:strconv.Quote(P4)}" {
@@ -219,7 +219,7 @@ func runC12(c *Ctx, r *Report, tier string) {
 	// isPrint
 	ipn := c.fname(ip)
 	okIP := false
-	for _, b := range ip.Blocks {
+	for _, b := range c.blocks(ip) {
 		if iff, ok := b.Instrs[len(b.Instrs)-1].(*ssa.If); ok {
 			if c.cond(iff.Cond).Term == "call:strconv.IsPrint(next(range(P0))#2)" {
 				okIP = true
@@ -293,7 +293,7 @@ func runC12(c *Ctx, r *Report, tier string) {
 		_ = in
 	}
 	skipOK := false
-	for _, b := range wg.Blocks {
+	for _, b := range c.blocks(wg) {
 		if iff, ok := b.Instrs[len(b.Instrs)-1].(*ssa.If); ok {
 			l := c.cond(iff.Cond)
 			if strings.HasPrefix(l.Term, "call:(*Option).valueIsDefault(idx(Group.options(P1), ") {
@@ -337,7 +337,7 @@ func runC12(c *Ctx, r *Report, tier string) {
 
 	// ---- LINES
 	okL := false
-	for _, l := range loopsOf(rfl) {
+	for _, l := range c.loopsDeep(rfl) {
 		for _, in := range l.Header.Instrs {
 			if p, ok := in.(*ssa.Phi); ok && isSliceT(p.Type()) {
 				okL = c.term(p) == "phi{append(phi↺, call:(*bufio.Reader).ReadLine(P0)#0) | nil}"
